@@ -120,7 +120,7 @@ def run(ck):
                                      % (name, r))
 
     # ---------------- M3
-    m3(ck, em, rng, 150 if quick else 1500)
+    m3(ck, em, rng, 150 if quick else 800)
 
 
 # ====================================================================== M3
